@@ -292,6 +292,7 @@ def _mutants():
     from selftest.mutate import Mutant as M
     C = "command_line.py"
     return [
+        M("id-slice-negative-zero", "command_line.py", "x[fpl:len(x) - fsl]", "x[fpl:-fsl]", "no-negative-zero-slice-bound"),
         M("endswith-prefix-again", C, "if x.startswith(options.file_prefix) and x.endswith(options.file_suffix))\n    os.makedirs(options.ali_dir",
           "if x.startswith(options.file_prefix) and x.endswith(options.file_prefix))\n    os.makedirs(options.ali_dir", "G"),
         M("print-in-unordered-loop", C, "s += s_\n        ss += ss_\n        c += c_\n    _do_mv_printing(s, ss, c, options)\n\ndef _print_torch_ref",
